@@ -169,6 +169,41 @@ def tissue_case(res, spec, exprs):
     res.case(("tissue", len(spec["cells"]), tuple(spec["vertices"][0])), nontrivial=len(spec["cells"]) > 1)
 
 
+def removal_case(res, spec, rng):
+    """a sub-tissue obtained on the live objects (ForSys.remove_cell, which rebuilds the frame from the surviving Cell objects): the
+    neighbours of every surviving cell are the other surviving cells sharing a vertex with it"""
+    import gc
+    f = impl.forsys_of({0: impl.frame(spec)})
+    cyc = dict(spec["cells"])
+    for cid in list(cyc):
+        f.frames[0].cells[cid].calculate_neighbors()        # asked once before the tissue changes
+    victim = int(rng.choice(sorted(cyc)))
+    replay = {"spec": {k: spec[k] for k in ("vertices", "edges", "cells")}, "removed_cell": victim}
+    try:
+        with impl.quiet():
+            f.remove_cell(0, victim)
+    except Exception:  # noqa  (what remove_cell accepts is not C20's subject)
+        res.count("remove_cell rejected")
+        return
+    gc.collect()
+    res.count("sub-tissue by remove_cell on the live objects")
+    fr = f.frames[0]
+    member = {}
+    for cid, cc in fr.cells.items():
+        for w in cc.vertices:
+            member.setdefault(w.id, set()).add(cid)
+    for cid, cc in fr.cells.items():
+        got = cc.calculate_neighbors()
+        exp = set()
+        for w in cc.vertices:
+            exp |= member[w.id]
+        exp.discard(cid)
+        if sorted(got) != sorted(exp) or len(set(got)) != len(got):
+            res.fail("oracle", f"after removing cell {victim}: neighbours of cell {cid}: {sorted(got)} but the cells sharing a vertex with it are {sorted(exp)}", replay)
+            break
+    res.case(("removal", len(cyc), victim), nontrivial=len(cyc) > 2)
+
+
 def run(res, tier, seed):
     rng = np.random.default_rng(seed)
     npoly = 60 if tier == "quick" else 1500
@@ -197,6 +232,7 @@ def run(res, tier, seed):
         subs = gen.connected_subsets(spec, rng, 2)
         for s in subs:
             tissue_case(res, gen.sub_tissue(spec, s), exprs)
+        removal_case(res, spec, rng)
     bools, outs = C.coq_eval_bools("C20", IMPORTS, [e for e, _, _ in exprs], chunk=100)
     for (e, rp, kind), b in zip(exprs, bools):
         res.traces += 1
